@@ -17,22 +17,22 @@ type Violation struct {
 }
 
 type RunOut struct {
-	prop       string
-	Violations []Violation
-	Discard    string // non-empty: the run is not judged (reason)
-	Nontrivial bool
-	ILHash     uint64
-	EvHash     uint64
-	SimTime    time.Duration
-	Steps      int64
-	Decisions  int
-	Switches   int
-	Tasks      int
-	Stats      map[string]int64
-	Sample     interface{}
-	Log        []string
-	Races      int
-	RaceText   string
+	prop        string
+	Violations  []Violation
+	Discard     string // non-empty: the run is not judged (reason)
+	Nontrivial  bool
+	ILHash      uint64
+	EvHash      uint64
+	SimTime     time.Duration
+	Steps       int64
+	Decisions   int
+	Switches    int
+	Tasks       int
+	Stats       map[string]int64
+	Sample      interface{}
+	Log         []string
+	Races       int
+	RaceText    string
 	BubblePanic string
 }
 
